@@ -106,7 +106,8 @@ def cell_conv(chk, drv, fn, args):
         se, sp, p = (Fraction(float(x)) for x in args)
         num, oth = (se * p, (1 - sp) * (1 - p)) if fn == 'ppv_converter' else (sp * (1 - p), (1 - se) * p)
         v = float(res[1])
-        chk.d(close(v, float(num / (num + oth)), rtol=1e-12, atol=1e-300), '%s = Bayes\' rule' % fn, case)
+        if num + oth != 0:          # 0/0: the documented value is undefined (the unchanged code raises ZeroDivisionError)
+            chk.d(close(v, float(num / (num + oth)), rtol=1e-12, atol=1e-300), '%s = Bayes\' rule' % fn, case)
         chk.d(0.0 <= v <= 1.0, '%s lies in [0, 1] for inputs in [0, 1]' % fn, case)
 
 
